@@ -6,6 +6,8 @@ import CpProofs.C17Lemmas
   (header_elements, encoding.gzip as repaired, ResponseEncoder).  Helper lemmas: `C17Lemmas.lean`.
   Parameters: raw deflate `Z` (contract `Z.Lawful`), codecs (`can`, `Codec`).
 -/
+set_option exponentiation.threshold 2048
+
 namespace CpProofs.C17
 
 open CpModel.Gzip CpModel.Negotiate
@@ -486,20 +488,21 @@ theorem C17_charset_star_ignores_explicit :
     findAcceptableCharset (fun _ => true) false none (some "utf-8;q=0, *;q=0.2".toList) = .chosen sUtf8 := by
   decide
 
-/-- `parseQ` never yields a scale above 15, so `Q.key` compares exact decimals -/
-theorem mkQ_scale_le (neg : Bool) (ip fp : Str) (neg' : Bool) (n sc : Nat)
-    (h : mkQ neg ip fp = .ok neg' n sc) : sc ≤ 15 := by
+/-- `parseQ` never yields a scale above `keyScale`, so `Q.key` compares exact decimals -/
+theorem mkQ_scale_le (neg : Bool) (ip fp : Str) (e : Int) (neg' : Bool) (n sc : Nat)
+    (h : mkQ neg ip fp e = .ok neg' n sc) : sc ≤ keyScale := by
   simp only [mkQ] at h
-  split at h
-  · simp at h
-  · simp only [Q.ok.injEq] at h
-    omega
+  repeat' split at h
+  all_goals first
+    | (simp only [Q.ok.injEq] at h; simp only [keyScale]; omega)
+    | simp at h
 
-theorem parseQ_scale_le (s : Str) (neg : Bool) (n sc : Nat) (h : parseQ s = .ok neg n sc) : sc ≤ 15 := by
+theorem parseQ_scale_le (s : Str) (neg : Bool) (n sc : Nat) (h : parseQ s = .ok neg n sc) :
+    sc ≤ keyScale := by
   simp only [parseQ] at h
   repeat' split at h
   all_goals first
-    | exact mkQ_scale_le _ _ _ _ _ _ h
+    | exact mkQ_scale_le _ _ _ _ _ _ _ h
     | simp at h
 
 end CpProofs.C17
